@@ -606,3 +606,53 @@ func VerifC20WorkflowOrder() {
 	out, rerr := r.Invoke(ctx, c20In{A: x})
 	vassert(rerr == nil && out.X == x, "and runs")
 }
+
+// pass-through nodes with an input or output key whose un-keyed side is not connected to any typed node: the type
+// cannot be inferred, which Compile reports as an error (never a panic), on every attempt
+func VerifC20KeyedPassthrough() {
+	ctx := context.Background()
+	vcfg("fifo", 1)
+	shape := vchoose("shape", 4)
+	var err1, err2 error
+	switch shape {
+	case 0: // output-keyed pass-through whose only connection is p -> END
+		g := NewGraph[map[string]any, map[string]any]()
+		_ = g.AddLambdaNode("a", vNode("a", nil))
+		_ = g.AddPassthroughNode("p", WithOutputKey("k"))
+		_ = g.AddEdge(START, "a")
+		_ = g.AddEdge("a", END)
+		_ = g.AddEdge("p", END)
+		_, err1 = g.Compile(ctx)
+		_, err2 = g.Compile(ctx)
+	case 1: // input-keyed pass-through fed by START, nothing behind it
+		g := NewGraph[map[string]any, map[string]any]()
+		_ = g.AddLambdaNode("a", vNode("a", nil))
+		_ = g.AddPassthroughNode("p", WithInputKey("k"))
+		_ = g.AddEdge(START, "a")
+		_ = g.AddEdge("a", END)
+		_ = g.AddEdge(START, "p")
+		_, err1 = g.Compile(ctx)
+		_, err2 = g.Compile(ctx)
+	case 2: // workflow pass-through that only has a control dependency
+		wf := NewWorkflow[map[string]any, map[string]any]()
+		wf.AddLambdaNode("a", vNode("a", nil)).AddInput(START)
+		wf.AddPassthroughNode("p", WithOutputKey("k")).AddDependency("a")
+		wf.End().AddInput("a")
+		_, err1 = wf.Compile(ctx)
+		_, err2 = wf.Compile(ctx)
+	case 3: // control: a keyed pass-through connected on both sides compiles
+		g := NewGraph[map[string]any, map[string]any]()
+		_ = g.AddLambdaNode("a", vNode("a", nil))
+		_ = g.AddPassthroughNode("p", WithOutputKey("k"))
+		_ = g.AddEdge(START, "a")
+		_ = g.AddEdge("a", "p")
+		_ = g.AddEdge("p", END)
+		r, err := g.Compile(ctx)
+		vassert(err == nil, "a keyed pass-through between two typed nodes compiles")
+		out, rerr := r.Invoke(ctx, map[string]any{"in": 1})
+		_, has := out["k"]
+		vassert(rerr == nil && has, "and wraps its input under the key")
+		return
+	}
+	vassert(err1 != nil && err2 != nil, "a keyed pass-through whose type cannot be inferred is rejected by Compile with an error, on every attempt")
+}
